@@ -157,8 +157,10 @@ pub fn run(ctx: &Ctx) -> Report {
     if single {
       sb.write("in", &rng.bytes_upto(100));
     } else {
-      for n in 0..rng.below(4) {
-        sb.write(&format!("in/f{n}"), &rng.bytes_upto(50));
+      // names and sizes in unrelated orders, so that --sort-by changes the listed order
+      for n in 0..rng.below(5) {
+        let len = *rng.pick(&[0usize, 1, 7, 20, 50, 3]);
+        sb.write(&format!("in/{}{n}", rng.pick(&["z", "f", "a", "m/sub"])), &rng.bytes(len));
       }
       sb.mkdir("in");
     }
@@ -171,6 +173,16 @@ pub fn run(ctx: &Ctx) -> Report {
     }
     if rng.chance(1, 2) {
       args.push("--md5".into());
+    }
+    if rng.chance(1, 2) {
+      args.push("--sort-by".into());
+      args.push(rng.pick(&["size", "size:descending", "path:descending", "path"]).to_string());
+    }
+    if rng.chance(1, 4) {
+      args.extend(["--update-url".to_string(), "https://example.com/feed".into()]);
+    }
+    if rng.chance(1, 4) {
+      args.extend(["--node".to_string(), "router.example.com:6881".into()]);
     }
     if rng.chance(1, 3) {
       args.push("--private".into());
